@@ -2,7 +2,7 @@
 with error isolation, document order, and a code fence is closed only by the sigil that opened it."""
 import re
 from collections import defaultdict
-from lib.facts import CallGraph, find, walk, is_node, path_of, render, render_stmt, render_pat, fns_in_type
+from lib.facts import CallGraph, find, walk, is_node, path_of, render, render_stmt, render_pat, fns_in_type, strip_refs
 from lib.mirq import Slice
 
 TECHNIQUE = ("per-arm call classification of section_element()/paragraph_element() against a partition of the SectionElement variants (executing / inline "
@@ -40,6 +40,85 @@ def called(node):
     return out
 
 
+# ---- roles are recognised by signature position/type, pattern bindings and provenance - never by the spelling of a local
+def params_of_type(it, type_name):
+    """names of the parameters of fn item `it` whose declared type is `type_name` behind any number of `&` / `&mut` / lifetimes (a role by TYPE, not by spelling)"""
+    out = []
+    for pat, ty in it.get("sig", {}).get("inputs", []):
+        core = re.sub(r"&|'\w+\s|\bmut\s|\s", "", str(ty) + " ").strip()
+        if core == type_name and is_node(pat) and pat[0] == "pident":
+            out.append(pat[1])
+    return out
+
+
+def var_of(e):
+    """the variable an expression denotes after stripping references, dereferences and parentheses; None if it is not a plain variable"""
+    e = strip_refs(e)
+    while is_node(e) and e[0] == "paren":
+        e = strip_refs(e[1])
+    return path_of(e)
+
+
+def let_defs(stmts, deep=True):
+    """local name -> initialiser AST for every `let` binding below `stmts` (tuple patterns bind each of their names to the whole initialiser)"""
+    out = {}
+    for st in (find(stmts, "let") if deep else [s for s in stmts if s[0] == "let"]):
+        if len(st) == 4 and st[2] is not None:
+            for pi in find(st[1], "pident"):
+                out[pi[1]] = st[2]
+    return out
+
+
+TRANSPARENT = {"borrow_mut", "borrow", "as_mut", "as_ref", "clone", "lock", "unwrap", "deref", "deref_mut"}
+
+
+def field_origin(e, defs, depth=0):
+    """provenance of a value: follow local aliases (`let a = <e>`), references, parentheses and access-only method calls (borrow_mut, as_mut, ..) down to a
+    field chain; returns (root variable, [field names]) - e.g. `let m = p.sub_interpreters.borrow_mut(); m` -> ("p", ["sub_interpreters"]) - or None"""
+    fields = []
+    while depth < 16 and is_node(e):
+        depth += 1
+        e = strip_refs(e)
+        if not is_node(e):
+            return None
+        if e[0] == "paren":
+            e = e[1]
+        elif e[0] == "mcall" and e[2] in TRANSPARENT and not e[4]:
+            e = e[1]
+        elif e[0] == "try":
+            e = e[1]
+        elif e[0] == "field":
+            fields.insert(0, e[2])
+            e = e[1]
+        elif e[0] == "path":
+            if e[1] in defs and not fields and "::" not in e[1]:
+                e = defs[e[1]]
+            elif e[1] in defs and "::" not in e[1]:
+                sub = field_origin(defs[e[1]], defs, depth)
+                return (sub[0], sub[1] + fields) if sub else (e[1], fields)
+            else:
+                return (e[1], fields)
+        else:
+            return None
+    return None
+
+
+def applied_ops(e, defs, body, depth=0, seen=None):
+    """names of the methods, functions and macros applied while computing `e`, following the locals it mentions to their initialisers and to the method calls
+    made on them anywhere in `body` (so `let v = ..; v.sort(); for s in v` is seen as sorted whatever `v` is called)"""
+    seen = set() if seen is None else seen
+    ops = [mc[2] for mc in find(e, "mcall")] + [path_of(c[1]).split("::")[-1] for c in find(e, "call") if path_of(c[1])] + [m_[1] for m_ in find(e, "macro")]
+    if depth > 6:
+        return ops
+    for n in find(e, "path"):
+        v = n[1]
+        if v in defs and v not in seen and "::" not in v:
+            seen.add(v)
+            ops += applied_ops(defs[v], defs, body, depth + 1, seen)
+            ops += [mc[2] for mc in find(body, "mcall") if var_of(mc[1]) == v]
+    return ops
+
+
 def run(F, rep, tier):
     crate = "mech_interpreter.lib"
     items = F.syn(crate)
@@ -53,7 +132,10 @@ def run(F, rep, tier):
     if not rep.check(len(se) == 1, "C10-R1", "anchor:section_element", "section_element not found"):
         return
     se = se[0]
-    m = [x for x in find(se["body"], "match") if path_of(x[1]) == "element"]
+    # the element is the parameter of type &SectionElement, the parent interpreter the parameter of type &Interpreter - whatever they are called
+    elem_params = params_of_type(se, "SectionElement")
+    parent = set(params_of_type(se, "Interpreter"))
+    m = [x for x in find(se["body"], "match") if var_of(x[1]) in elem_params and any(a[0][0] in ("pts", "ppath") and a[0][1].startswith("SectionElement::") for a in x[2])]
     if not rep.check(len(m) >= 1, "C10-R1", "anchor:match-element", "section_element has no match on the element"):
         return
     arms = {}
@@ -85,9 +167,12 @@ def run(F, rep, tier):
             rep.note("variant_without_arm", v)
     pe = [it for it in items if it["k"] == "fn" and it["name"] == "paragraph_element" and it["mod"].endswith("mechdown")]
     if rep.check(len(pe) == 1, "C10-R1", "anchor:paragraph_element", "paragraph_element not found"):
+        pelem = params_of_type(pe[0], "ParagraphElement")
+        n_pm = 0
         for mm in find(pe[0]["body"], "match"):
-            if path_of(mm[1]) != "element":
+            if var_of(mm[1]) not in pelem:
                 continue
+            n_pm += 1
             for arm in mm[2]:
                 p = arm[0]
                 if p[0] in ("pts", "ppath") and p[1].startswith("ParagraphElement::"):
@@ -95,39 +180,60 @@ def run(F, rep, tier):
                     ev = sorted(c for c in called(arm[2]) if EVAL_FNS.match(c))
                     if "Eval" not in v:
                         rep.check(not ev, "C10-R1", "paragraph:%s" % v, "ParagraphElement::%s (prose) evaluates through %s" % (v, ev), "expanded line %d" % arm[3])
+        rep.floor("C10-R1", "paragraph_element matches on its ParagraphElement parameter", n_pm, 1)
     # R2/R3 fenced arm
     fa = arms.get("FencedMechCode", [])
     if rep.check(len(fa) == 1, "C10-R2", "anchor:fenced-arm", "FencedMechCode arm not found"):
         body = fa[0][2][1] if fa[0][2][0] == "block" else []
         first = body[0] if body else None
-        ok = first is not None and first[0] == "expr" and is_node(first[1]) and first[1][0] == "if" and re.search(r"\.disabled", render(first[1][1])) and \
+        # the fence is whatever the arm's pattern binds; its fields (config.disabled, config.namespace, code) are struct fields and keep their names
+        fence = {pi[1] for pi in find(fa[0][0], "pident")}
+        body_defs = let_defs(body, deep=False)
+
+        def reads_fence_field(e, field):
+            """some sub-expression of e is `<fence>...<field>` (the field chain is rooted at the arm's binding, directly or through a local alias)"""
+            for n in walk(e):
+                if n[0] in ("field", "path"):
+                    o = field_origin(n, body_defs)
+                    if o and o[0] in fence and o[1] and o[1][-1] == field:
+                        return True
+            return False
+        ok = first is not None and first[0] == "expr" and is_node(first[1]) and first[1][0] == "if" and reads_fence_field(first[1][1], "disabled") and \
             not re.search(r"^!|==false|!=true", render(first[1][1]).replace(" ", "")) and \
             any(r[0] == "ret" for r in find(first[1][2], "ret")) and not any(EVAL_FNS.match(c) for c in called(first[1][2]))
-        rep.check(bool(ok), "C10-R2", "disabled-test-first", "the fenced-code arm does not start with `if block.config.disabled { return .. }`: a disabled fence can run", sample={"first_statement": render_stmt(first)[:100] if first else None})
+        rep.check(bool(ok), "C10-R2", "disabled-test-first", "the fenced-code arm does not start with `if <fence>.config.disabled { return .. }`: a disabled fence can run", sample={"first_statement": render_stmt(first)[:100] if first else None})
         # namespace branch
         ifs = [st[1] for st in body if st[0] == "expr" and is_node(st[1]) and st[1][0] == "if" and re.search(r"==0|== 0", render(st[1][1]))]
         if rep.check(len(ifs) == 1 and ifs[0][3] is not None, "C10-R3", "namespace-branch", "no `if namespace == 0 {..} else {..}` branch in the fenced-code arm"):
             nz = ifs[0]
-            cond_var = re.sub(r"\s*==\s*0", "", render(nz[1])).strip("() ")
-            # the id derives from block.config.namespace
-            defs = {st[1][1]: render(st[2]) for st in body if st[0] == "let" and st[2] is not None and st[1][0] == "pident"}
-            rep.check("namespace" in defs.get(cond_var, cond_var), "C10-R3", "namespace-id-source", "the fence id tested (%s) is not the block's namespace" % cond_var)
+            cond = nz[1]
+            while is_node(cond) and cond[0] == "paren":
+                cond = cond[1]
+            cond_e = None
+            if is_node(cond) and cond[0] == "bin" and cond[1] == "==":
+                zero = [x for x in (cond[2], cond[3]) if is_node(x) and x[0] == "int" and re.match(r"0(_?[ui]\d+|usize|isize)?$", str(x[1]))]
+                if len(zero) == 1:
+                    cond_e = cond[3] if zero[0] is cond[2] else cond[2]
+            cond_var = render(cond_e).strip("() ") if cond_e is not None else re.sub(r"\s*==\s*0", "", render(nz[1])).strip("() ")
+            # the id derives from <fence>.config.namespace: by provenance (alias map of the arm's lets), not by the spelling of the local that holds it
+            org = field_origin(cond_e, body_defs) if cond_e is not None else None
+            rep.check(org is not None and org[0] in fence and org[1][-1:] == ["namespace"], "C10-R3", "namespace-id-source", "the fence id tested (%s) is not the block's namespace" % cond_var)
             zero_calls = [c for c in find(nz[2], "call") if path_of(c[1]) == "eval_fenced_code_block"]
             other = nz[3][1] if nz[3][0] == "block" else []
             other_calls = [c for c in find(other, "call") if path_of(c[1]) == "eval_fenced_code_block"]
-            ok0 = len(zero_calls) == 1 and render(zero_calls[0][2][1]) == "p" and render(zero_calls[0][2][2]) == "false"
+            # "the parent" is the &Interpreter parameter of section_element (by type), whatever it is called
+            ok0 = len(zero_calls) == 1 and len(zero_calls[0][2]) == 3 and var_of(zero_calls[0][2][1]) in parent and render(zero_calls[0][2][2]) == "false"
             rep.check(ok0, "C10-R3", "unnamed-runs-in-parent", "an unnamed fence is not evaluated in the parent interpreter with isolation off: %s" % [render(c)[:80] for c in zero_calls])
-            ok1 = len(other_calls) == 1 and render(other_calls[0][2][2]) == "true" and render(other_calls[0][2][1]) != "p"
+            ok1 = len(other_calls) == 1 and len(other_calls[0][2]) == 3 and render(other_calls[0][2][2]) == "true" and var_of(other_calls[0][2][1]) is not None and var_of(other_calls[0][2][1]) not in parent
             rep.check(ok1, "C10-R3", "named-runs-isolated", "a named fence is not evaluated with error isolation in an interpreter other than the parent: %s" % [render(c)[:80] for c in other_calls])
             if other_calls:
-                ivar = render(other_calls[0][2][1])
-                odefs = {}
-                for st in find(other, "let"):
-                    if len(st) == 4 and st[2] is not None:
-                        for pi in find(st[1], "pident"):
-                            odefs[pi[1]] = st[2]
+                ivar = var_of(other_calls[0][2][1]) or render(other_calls[0][2][1])
+                odefs = let_defs(other)
                 src = render(odefs.get(ivar)) if ivar in odefs else ""
-                rep.check("sub_interpreters" in src and re.search(r"\.entry\(%s\)" % re.escape(cond_var), src) is not None, "C10-R3", "named-interpreter-keyed-by-namespace",
+                # the map that is indexed: the receiver of `.entry(<id>)` must be, by provenance, the field `sub_interpreters` of the parent interpreter
+                entries = [mc for mc in find(odefs.get(ivar), "mcall") if mc[2] == "entry" and len(mc[4]) == 1 and re.sub(r"\s", "", render(mc[4][0])) == re.sub(r"\s", "", cond_var)]
+                maps = [field_origin(mc[1], odefs) for mc in entries]
+                rep.check(len(entries) >= 1 and all(o is not None and o[0] in parent and o[1] == ["sub_interpreters"] for o in maps), "C10-R3", "named-interpreter-keyed-by-namespace",
                           "the interpreter for a named fence (`%s`) is not the sub_interpreters entry of that namespace id: %s" % (ivar, src[:120]), sample={"interpreter": src[:100]})
                 # the inserted default: Interpreter::new(id) with only set_functions applied
                 m_ins = re.search(r"or_insert\(Box::new\((\w+)\)\)", src)
@@ -142,14 +248,17 @@ def run(F, rep, tier):
     ef = [it for it in items if it["k"] == "fn" and it["name"] == "eval_fenced_code_block"]
     if rep.check(len(ef) == 1, "C10-R4", "anchor:eval_fenced_code_block", "eval_fenced_code_block not found"):
         n_err = 0
+        # the isolation switch is the bool parameter of eval_fenced_code_block (by type), whatever it is called
+        iso = set(params_of_type(ef[0], "bool"))
+        rep.check(len(iso) == 1, "C10-R4", "anchor:isolation-flag", "eval_fenced_code_block does not take exactly one bool (the isolate-errors switch): %s" % sorted(iso))
         for blk in [n for n in walk(ef[0]["body"]) if n[0] in ("block",)] + [["block", ef[0]["body"]]]:
             stmts = blk[1]
             for i, st in enumerate(stmts):
                 if st[0] == "expr" and is_node(st[1]) and st[1][0] == "ret" and "Err(" in render(st[1]):
                     n_err += 1
                     prev = stmts[:i]
-                    ok = any(p_[0] == "expr" and is_node(p_[1]) and p_[1][0] == "if" and render(p_[1][1]).strip() == "isolate_errors" and any(True for _ in find(p_[1][2], "ret")) for p_ in prev)
-                    rep.check(ok, "C10-R4", "err-return-behind-isolation", "eval_fenced_code_block returns an Err that is not preceded by `if isolate_errors { return Ok(..) }`: an error in a named fence stops the document")
+                    ok = any(p_[0] == "expr" and is_node(p_[1]) and p_[1][0] == "if" and path_of(p_[1][1]) in iso and any(True for _ in find(p_[1][2], "ret")) for p_ in prev)
+                    rep.check(ok, "C10-R4", "err-return-behind-isolation", "eval_fenced_code_block returns an Err that is not preceded by `if <the bool isolation parameter> { return Ok(..) }`: an error in a named fence stops the document")
         rep.floor("C10-R4", "Err returns in eval_fenced_code_block", n_err, 2)
         rep.check(not any("?" == render(t)[-1:] for t in find(ef[0]["body"], "try")), "C10-R4", "no-question-mark", "eval_fenced_code_block propagates an error with `?` (bypasses isolation)")
     # R5 order
@@ -157,7 +266,10 @@ def run(F, rep, tier):
         it = [x for x in items if x["k"] == "fn" and x["name"] == fn and x["mod"].endswith("mechdown")]
         for x in it:
             for f in find(x["body"], "for"):
-                rep.check(not re.search(r"rev\(\)|sort", render(f[2])), "C10-R5", "%s:forward" % fn, "%s visits its children as `%s`" % (fn, render(f[2])))
+                # reordering is recognised by the METHODS / FUNCTIONS / MACROS applied to the iterated collection (rev, sort*, sorted..), not by a substring of the
+                # rendered text (a parameter or local that happens to be called `sorted_sections` or `prev` reorders nothing)
+                ops = applied_ops(f[2], let_defs(x["body"]), x["body"])
+                rep.check(not any(o in ("rev", "reverse") or "sort" in o or "shuffle" in o for o in ops), "C10-R5", "%s:forward" % fn, "%s visits its children as `%s`" % (fn, render(f[2])))
     # R6 parser side
     sb = {b.fn.split("::")[-1]: b for b in F.bodies("mech_syntax.lib") if "::mechdown::" in b.fn and b.fn.split("::")[-1] in ("code_block", "codeblock_sigil", "grave_codeblock_sigil", "tilde_codeblock_sigil")}
     if rep.check("code_block" in sb and "codeblock_sigil" in sb, "C10-R6", "anchor:code_block", "code_block / codeblock_sigil not found in mech_syntax"):
@@ -251,7 +363,15 @@ def run(F, rep, tier):
                         seen_defs += 1
                         chain(d, depth + 1)
                 elif e[0] in ("call", "index", "field", "if", "match", "block", "macro"):
-                    chain_bad.append(render(e)[:30])
+                    # label without local spellings (it becomes part of the violation key): the construct kind plus the callee / field / macro name
+                    lab = e[0]
+                    if e[0] == "call" and path_of(e[1]):
+                        lab = "call:" + path_of(e[1]).split("::")[-1]
+                    elif e[0] == "field":
+                        lab = "field:" + str(e[2])
+                    elif e[0] == "macro":
+                        lab = "macro:" + str(e[1])
+                    chain_bad.append(lab)
             chain(arg)
             rep.check(not chain_bad and seen_defs >= 1, "C10-R7", "namespace-is-hash-of-whole-name" if not chain_bad else "namespace-derivation:%s" % ",".join(sorted(set(chain_bad)))[:60],
                       "code_block computes the namespace id from `%s`, which is derived from the fence tag through %s: names that differ only in the discarded part share one namespace" % (render(arg)[:30], sorted(set(chain_bad))),
